@@ -952,7 +952,7 @@ func (self *PathNode) GetByStr(key string, opts *Options) *PathNode {
 		N := n * 2
 		// TODO: cap may change after Set. Use better way to store hash size
 		// only a map above the threshold has been stored by hash (see scanChildren)
-		if n > StoreChildrenByIntHashShreshold && cap(self.Next) >= N {
+		if N > 0 && n > StoreChildrenByIntHashShreshold && cap(self.Next) >= N {
 			if s := getStrHash(&self.Next, key, N); s != nil {
 				return s
 			}
@@ -986,7 +986,7 @@ func (self *PathNode) SetByStr(key string, val Node, opts *Options) (bool, error
 		N := n * 2
 		// TODO: cap may change after Set. Use better way to store hash size
 		// only a map above the threshold has been stored by hash (see scanChildren)
-		if n > StoreChildrenByIntHashShreshold && cap(self.Next) >= N {
+		if N > 0 && n > StoreChildrenByIntHashShreshold && cap(self.Next) >= N {
 			if s := getStrHash(&self.Next, key, N); s != nil {
 				s.setNode(val)
 				return true, nil
@@ -1025,7 +1025,7 @@ func (self *PathNode) GetByInt(key int, opts *Options) *PathNode {
 		n, _ := self.Node.len()
 		N := n * 2
 		// only a map above the threshold has been stored by hash (see scanChildren)
-		if n > StoreChildrenByIntHashShreshold && cap(self.Next) >= N {
+		if N > 0 && n > StoreChildrenByIntHashShreshold && cap(self.Next) >= N {
 			if s := getIntHash(&self.Next, uint64(key), N); s != nil {
 				return s
 			}
@@ -1058,7 +1058,7 @@ func (self *PathNode) SetByInt(key int, val Node, opts *Options) (bool, error) {
 		n, _ := self.Node.len()
 		N := n * 2
 		// only a map above the threshold has been stored by hash (see scanChildren)
-		if n > StoreChildrenByIntHashShreshold && cap(self.Next) >= N {
+		if N > 0 && n > StoreChildrenByIntHashShreshold && cap(self.Next) >= N {
 			if s := getIntHash(&self.Next, uint64(key), N); s != nil {
 				s.setNode(val)
 				return true, nil
